@@ -57,7 +57,7 @@ PROPS = {
                 assumptions=["armed after makeFeasible() followed by at least one completed iteration, nothing reported unsatisfiable",
                              "user constraints and clusters are generated from a non-overlapping witness grid", "a cluster built on a node rectangle (RectangularCluster(rectIndex)): the box and its members count as declared to overlap; such scenes carry no user constraints"]),
     "C15": dict(build="san", also_build="plain", also_runs_quick=20000, also_budget_quick=15, also_runs_thorough=600000, also_budget_thorough=600, runs_quick=6000, budget_quick=45, shrink_budget=60, runs_thorough=150000, budget_thorough=1200, rule=MIX_RULE, timeout_quick=60,
-                assumptions=["ASan+UBSan (recoverable) on all five libraries and the harness, LeakSanitizer check at the end of every run, library assertions as exceptions, watchdog",
+                assumptions=["ASan+UBSan (recoverable) on all five libraries and the harness, LeakSanitizer check at the end of every run, library assertions as exceptions, watchdog", "topology sessions also drive a ConvexCluster boundary (cyclic topology edge, built as ColaTopologyAddon::makeFeasible builds it) through TopologyConstraints passes in both dimensions",
                              "allocation failure is not injected (the property is about valid use)",
                              "only direct leaks are classified; leaks in a run in which the library threw an assertion are attributed to that assertion"]),
     "C20": dict(build="plain", runs_quick=6000, budget_quick=150, runs_thorough=200000, budget_thorough=1200, rule=MIX_RULE + "; every evaluation executes the subject session three times: alone (lifo heap, constant fill), in the busy world (random placement, junk fill), and in the busy world with another heap seed; every third evaluation is instead a frame-twin world: two editor sessions, the second executing the first one's plan translated by k/1024 or mirrored/quarter-turned, compared transaction by transaction",
@@ -71,6 +71,7 @@ PROPS = {
                              "penalty>0: violation only if costlier than the taut-path optimum; equal to taut but above the free optimum is known finding KF-C04-a"]),
     "C05": dict(build="plain", runs_quick=60000, budget_quick=150, runs_thorough=300000, budget_thorough=900, rule=ROUTER_RULE,
                 assumptions=["cost oracle armed for free end points with all directions; rectangles; buffer distance modelled by growing the boxes", "the segment penalty is changed on the live router between transactions (6 % of the edits); bends are priced with the value in force",
+                             "35 % of the scenes put the source of a new connector on the scan line of another connector's free end, restricted to that line; connectors with a restricted end are not judged for cost, their neighbours are (KF-C05-a/b, rate guarded)",
                              "the bend-estimator sentence of the statement is a pure function and is not decided here"]),
     "C06": dict(build="plain", runs_quick=36000, budget_quick=150, runs_thorough=250000, budget_thorough=900, rule=ROUTER_RULE,
                 assumptions=["cost equality armed with crossing/shared-path/cluster penalties 0 and free end points",
